@@ -35,6 +35,34 @@ fn main() {
       }
     }
     Some("list") => { specs::list(); 0 }
+    Some("digest-scn") => { let Some(path) = args.get(2) else { std::process::exit(2); }; e1::digest_scenario_file(path) }
+    Some("digest") => {
+      // sim digest <engine> <config> <prop> <from> <n> [random-hash]: one line per run with a digest of everything observable.
+      use common::Engine;
+      let eng = args.get(2).cloned().unwrap_or_default();
+      let config = args.get(3).cloned().unwrap_or_default();
+      let prop = args.get(4).cloned().unwrap_or_default();
+      let from: u64 = args.get(5).and_then(|s| s.parse().ok()).unwrap_or(0);
+      let n: u64 = args.get(6).and_then(|s| s.parse().ok()).unwrap_or(100);
+      let random_hash = args.get(7).map(|s| s == "random-hash").unwrap_or(false);
+      let cfgs = specs::configs_of(&prop);
+      let ci = cfgs.iter().position(|c| *c == config).unwrap_or(0);
+      for i in from..from + n {
+        let stream = rng::hash_str(&prop) ^ rng::hash_str(&config).rotate_left(7) ^ (ci as u64);
+        let seed = rng::mix(common::master_seed(), stream, i);
+        let mut r = rng::Rng::new(seed);
+        let mut h = 0xcbf2_9ce4_8422_2325u64;
+        let mut add = |text: &str| { for b in text.bytes() { common::fnv(&mut h, b as u64); } };
+        match eng.as_str() {
+          "e1" => { let e = e1::BuildEngine; let mut scn = e.generate(&mut r, &config, &prop); scn.replays = 0; if random_hash { scn.hash_seed = None; } let out = e.run(&scn, &prop); add(&format!("{:?}{:?}{}{:?}", out.violations, out.stats.0, out.trace_hash, out.harness_error)); for l in e1::log_lines_pub() { add(&l); } }
+          "e2" => { let e = e2_dag::DagEngine; let mut scn = e.generate(&mut r, &config, &prop); if random_hash { scn.hash_seed = scn.hash_seed.wrapping_mul(31).wrapping_add(7); } let out = e.run(&scn, &prop); add(&format!("{:?}{:?}{}", out.violations, out.stats.0, out.steps)); }
+          "e3" => { let e = e3_fs::FsEngine; let scn = e.generate(&mut r, &config, &prop); let out = e.run(&scn, &prop); add(&format!("{:?}{:?}{}{}", out.violations, out.stats.0, out.trace_hash, out.steps)); }
+          _ => { let e = e4_state::StateEngine; let scn = e.generate(&mut r, &config, &prop); let out = e.run(&scn, &prop); add(&format!("{:?}{:?}{}{}", out.violations, out.stats.0, out.trace_hash, out.steps)); }
+        }
+        println!("{i} {h:016x}");
+      }
+      0
+    }
     Some("run1") => {
       // sim run1 <engine> <config> <prop> <index> [n]   (debugging aid: generate run <index> of a config and print what fires)
       use common::Engine;
